@@ -110,6 +110,11 @@ def build_compact(spec):
         else:
             d[name + "/val"] = ((name + "/collocation", name + "/channel"), val)
         d[name + "/scalar_attr"] = ((), float(base))
+        if spec.get("per_part"):
+            # variables that do not depend on the collocation dimension and differ from part to part (the
+            # per-file name that the file-set search adds before bundling, a per-file channel table)
+            d[name + "/__file"] = ((), "%s_%d.h5" % (name, spec["seed"] % 10007))
+            d[name + "/freq"] = ((name + "/channel",), 89.0 + np.arange(nch) * 10.0 + spec["seed"] % 7)
         if spec.get("cube"):
             # two extra dimensions, the collocation dimension last / in the middle
             u, v = spec["cube"]
@@ -391,12 +396,25 @@ def check_collapse(rec, ds, case, reference=None, collapser_name=None):
         rec.count("collapse.nontrivial")
 
 
+def rowless_vars(ds):
+    """Group variables that do not have their group's collocation dimension."""
+    groups = [str(g) for g in ds["Collocations/group"].values.tolist()]
+    return {v for g in groups for v in group_vars(ds, g) if g + "/collocation" not in ds[v].dims}
+
+
+def as_rows(exp, rowless, v, n):
+    arr = np.asarray(exp[v])
+    return np.broadcast_to(arr, (n,) + arr.shape) if v in rowless else arr
+
+
 def check_concat(rec, datasets, case):
     """expand(concat(a, b, ...)) == concat(expand(a), expand(b), ...)."""
     from typhon.collocations.collocator import concat_collocations
     rec.ev()
     rec.count("concat.calls")
     wants = [oracle_expand(d) for d in datasets]  # before concat mutates its inputs
+    want_rowless = [rowless_vars(d) for d in datasets]
+    n_rows = [d["Collocations/pairs"].shape[1] for d in datasets]
     pairs_before = [d["Collocations/pairs"].values.copy() for d in datasets]
     copies = [d.copy(deep=True) for d in datasets]
     try:
@@ -413,11 +431,14 @@ def check_concat(rec, datasets, case):
         return
     got = oracle_expand(cat)  # model expansion of typhon's concatenation ...
     ex = check_expand(rec, cat, dict(case, op="expand(concat)"))  # ... and typhon's own expand
+    got_rowless = rowless_vars(cat)
+    n_cat = cat["Collocations/pairs"].shape[1]
     for v in wants[0]:
-        if np.asarray(wants[0][v]).ndim == 0:
-            continue
-        w = np.concatenate([np.asarray(x[v]) for x in wants], axis=0)
-        if v not in got or not same(got[v], w):
+        # (a variable without the collocation dimension has the same value in every row of its part)
+        w = np.concatenate([as_rows(x, rl, v, n) for x, rl, n in zip(wants, want_rowless, n_rows)], axis=0)
+        if any(v in rl for rl in want_rowless):
+            rec.count("concat.rowless_variables")
+        if v not in got or not same(as_rows(got, got_rowless, v, n_cat), w):
             rec.violation("concat-wrong", case,
                           {"why": "expand(concat(...)) differs from concat(expand(...))", "var": v,
                            "got": None if v not in got else np.asarray(got[v]).ravel()[:6],
@@ -479,7 +500,7 @@ def run_shard(spec, rec):
             # concat of 1-5 harness-built datasets with the same layout
             k = rng.choice([1, 2, 2, 3, 5])
             specs = [dict(cs, seed=cs["seed"] + 17 * j, nA=rng.choice([1, 3, 8]), nB=rng.choice([1, 4, 9]),
-                          extra=rng.choice([0, 3])) for j in range(k)]
+                          extra=rng.choice([0, 3]), per_part=(i % 2 == 1)) for j in range(k)]
             check_concat(rec, [build_compact(s) for s in specs],
                          {"kind": "concat", "specs": specs, "seed": cs["seed"]})
             if i % 3 == 0:
